@@ -10,6 +10,7 @@ import Mathlib.Analysis.SpecialFunctions.Log.Basic
 import Mathlib.Analysis.SpecialFunctions.Pow.Real
 import TsdateVerif.Proofs.DiscreteLogHom
 import TsdateVerif.Proofs.DiscreteGuardsDec
+import TsdateVerif.Proofs.DiscreteMutPrior
 
 namespace Tsdate.C12
 open Tsdate Tsdate.Discrete
@@ -121,6 +122,40 @@ theorem posterior_log_eq_lin (h : LogLaws E log negInf) (x y : List β) :
   map_zipWith_hom (· + ·) (· * ·) E h.add x y
 
 end
+
+
+/-! ### The shared prior object across runs in different spaces -/
+
+/-- **`run_sees_prior_in_its_space`**: whatever probability-space tag a prior object carries (fresh,
+or left behind by an earlier run in either space), the first thing a run in space `s` does
+(`BeliefPropagation.__init__` → `force_probability_space`) leaves the object tagged `s`; so the passes
+of a linear run read linear numbers and those of a log run read logarithms. -/
+theorem run_sees_prior_in_its_space {γ : Type} (toLog toLin : γ → γ) (s : Space) (p : PriorObj γ) :
+    (runPrior toLog toLin s p).space = s :=
+  forceSpace_space toLog toLin s p
+
+/-- Along any sequence of runs on one shared prior object, the k-th run sees the object tagged with
+its own space (log→linear, linear→log, log→log→linear, …). -/
+theorem run_sequence_spaces {γ : Type} (toLog toLin : γ → γ) (ss : List Space) (p : PriorObj γ) :
+    (runSeq toLog toLin ss p).map (·.space) = ss :=
+  runSeq_spaces toLog toLin ss p
+
+/-- A run in the space the object is already in does not touch the data. -/
+theorem run_same_space_keeps_data {γ : Type} (toLog toLin : γ → γ) (s : Space) (p : PriorObj γ)
+    (h : p.space = s) : runPrior toLog toLin s p = p :=
+  forceSpace_same toLog toLin s p h
+
+/-- **log → linear on a shared object gives back the linear data** (so the later linear run computes
+what a fresh linear run computes), provided `exp (log x) = x` on the entries (`x ≥ 0`, `log 0 = -∞`). -/
+theorem run_log_then_lin_restores {γ : Type} (toLog toLin : γ → γ) (p : PriorObj γ)
+    (hp : p.space = Space.lin)
+    (h : ∀ row ∈ p.grid.toList, ∀ x ∈ row.toList, toLin (toLog x) = x) :
+    runPrior toLog toLin Space.lin (runPrior toLog toLin Space.log p) = p :=
+  forceSpace_roundtrip toLog toLin p hp h
+
+example : (runSeq (fun x : Int => x + 100) (fun x => x - 100) [Space.log, Space.log, Space.lin]
+    ⟨Space.lin, #[#[0, 1]]⟩).map (fun q => (q.space, q.grid))
+    = [(Space.log, #[#[100, 101]]), (Space.log, #[#[100, 101]]), (Space.lin, #[#[0, 1]])] := by decide +kernel
 
 /-! ### The laws are satisfiable: ℝ ∪ {-∞} with the real exponential -/
 
